@@ -26,11 +26,14 @@ using namespace sim;
 
 // Sanitizer defaults: classify aborts by exit code, no leak checking at exit
 // (value leaks are caught by the Tracked registry instead).
+#ifndef SIM_TSAN
 extern "C" __attribute__((used)) const char* __asan_default_options()
 {
-    return "exitcode=77:detect_leaks=0:abort_on_error=0:allocator_may_return_null=1:detect_stack_use_after_return=0";
+    return "exitcode=77:detect_leaks=0:abort_on_error=0:allocator_may_return_null=1:detect_stack_use_after_return=0:"
+           "quarantine_size_mb=8:thread_local_quarantine_size_kb=64:malloc_context_size=4";
 }
 extern "C" __attribute__((used)) const char* __ubsan_default_options() { return "halt_on_error=1:exitcode=77:print_stacktrace=1"; }
+#endif
 
 static double wall_now()
 {
@@ -440,6 +443,11 @@ int main(int argc, char** argv)
         return cmd_classify(argc, argv);
     if (cmd == "shrink")
         return cmd_shrink(argc, argv);
+    if (cmd == "pairs-total")
+    {
+        printf("%llu\n", (unsigned long long)conc_pairs_total());
+        return 0;
+    }
     fprintf(stderr, "unknown command %s\n", cmd.c_str());
     return 2;
 }
